@@ -145,3 +145,6 @@ pub mod errors;
 pub mod job;
 
 mod flag;
+
+#[cfg(watchexec_verif)]
+pub mod verif;
